@@ -18,6 +18,7 @@ import (
 	"strconv"
 	"strings"
 	"sync"
+	"time"
 
 	"kverif/internal/container"
 
@@ -474,9 +475,10 @@ func srGen(r *rand.Rand, tier string, n int, emit func(op string, tags ...string
 
 func init() {
 	registerStream(&Stream{
-		Name: "sr",
-		Rule: "streams built by the independent container builder (valid NONE/NONE blocks with position-coded data, last block short or full; variants: no end marker, source ending inside a frame, a block failing after the hand-off (bad checksum / bad prologue), an oversize block) read by the real Reader with jobs 1..64, size hint absent/exact/wrong, block range from/to (exhaustive over ranges for 1..12 blocks + random), source delivering short reads, random programs of Read (incl. 0-length) and Close, and four more Reads after the end; distinct_nontrivial = distinct scenarios returning at least one byte",
-		Gen:  srGen,
-		Exec: srExec,
+		Name:     "sr",
+		Watchdog: 60 * time.Second,
+		Rule:     "streams built by the independent container builder (valid NONE/NONE blocks with position-coded data, last block short or full; variants: no end marker, source ending inside a frame, a block failing after the hand-off (bad checksum / bad prologue), an oversize block) read by the real Reader with jobs 1..64, size hint absent/exact/wrong, block range from/to (exhaustive over ranges for 1..12 blocks + random), source delivering short reads, random programs of Read (incl. 0-length) and Close, and four more Reads after the end; distinct_nontrivial = distinct scenarios returning at least one byte",
+		Gen:      srGen,
+		Exec:     srExec,
 	})
 }
